@@ -119,12 +119,21 @@ def run(ctx):
     # literals of two keys: accepted iff the model's Cmp says strictly increasing (ordered and deduplicated by the same relation)
     from ..tlaparse import iter_dump
     from .C14 import literal_accepted
-    nlit = npy = 0
+    nlit = npy = nann = 0
     for st in iter_dump(r.dump):
         if st['fam'] != 'compare' or len(st['hist']) != 1 or st['status'] != 'running':
             continue
         (t, a), (_, b_) = st['init']
         cmpv = st['stack'][0][1][1]
+        # annotations are not part of a value: the same two values, one of them living at an annotated type (as storage / parameter values do), compare the same
+        if has_inner_pair(t):
+            for which in (0, 1):
+                got = compare_annotated(t, a, b_, which)
+                ctx.count(('cmp-annot', t, a, b_, which), nontrivial=True)
+                nann += 1
+                if got != cmpv:
+                    ctx.mismatch('C03:compare:one-operand-at-annotated-type', 'COMPARE of %s and %s of type %s with the %s operand typed with field/type annotations on its inner pairs gives %s, model Cmp = %d' % (
+                        a, b_, t, 'first' if which == 0 else 'second', got, cmpv), {'family': 'cmp-annot', 'type': t, 'a': a, 'b': b_, 'cmp': cmpv})
         if t in (UNIT,) or (ctx.quick and nlit > 1500):
             continue
         for kind, ct in (('set', SET(t)), ('map', MAP(t, UNIT)), ('big_map', ('big_map', t, UNIT))):
@@ -149,9 +158,38 @@ def run(ctx):
                         ctx.mismatch('C03:from-python:%s:%s' % (kind, 'raises' if isinstance(got_keys, str) else 'order'),
                                      '%s of key type %s built by from_python_object from %s: keys come out as %s, the Tezos order gives %s' % (kind, t, order, got_keys, want_j),
                                      {'family': 'pyobj', 'kind': kind, 'type': t, 'a': a, 'b': b_, 'cmp': cmpv})
-    ctx.replayed += nlit + npy
+    ctx.replayed += nlit + npy + nann
+    ctx.extra['comparisons_with_an_annotated_operand'] = nann
     ctx.extra['collections_built_from_python_objects'] = npy
     ctx.exhaustive = True
+
+
+def has_inner_pair(t):
+    return isinstance(t, tuple) and len(t) > 1 and ((t[0] == 'pair' and any(isinstance(x, tuple) and x[0] == 'pair' for x in t[1:])) or any(has_inner_pair(x) for x in t[1:] if isinstance(x, tuple)))
+
+
+def _annotate_inner(tj, depth=0):
+    if not isinstance(tj, dict):
+        return tj
+    out = dict(tj)
+    if 'args' in tj:
+        out['args'] = [_annotate_inner(a, depth + 1) for a in tj['args']]
+    if tj.get('prim') == 'pair' and depth > 0:
+        out['annots'] = ['%f' + str(depth), ':t' + str(depth)]
+    return out
+
+
+def compare_annotated(t, a, b_, which):
+    from pytezos.michelson.instructions.base import MichelsonInstruction
+    from pytezos.michelson.stack import MichelsonStack
+    from pytezos.context.impl import ExecutionContext
+    items = [vmreplay.make_item(t, v, annotate=_annotate_inner if k == which else None) for k, v in enumerate((a, b_))]
+    st = MichelsonStack(items)
+    try:
+        MichelsonInstruction.match({'prim': 'COMPARE'}).execute(st, [], ExecutionContext())
+        return int(st.items[0])
+    except Exception as e:   # noqa
+        return 'raises %s: %s' % (type(e).__name__, str(e)[:100])
 
 
 def from_python_order(t, ct, keys, kind):
